@@ -159,7 +159,7 @@ pub fn run(a: &Args) -> Report {
     let pools = pool(&signer, None);
     let all: Vec<&MutableItem> = pools.iter().flatten().collect();
     let mut rng = Rng::new(mix(a.seed, 0xc16 + a.shard));
-    let n_random = (if a.quick() { 4_000 } else { 100_000 }) / a.nshards.max(1);
+    let n_random = (if a.quick() { 32_000 } else { 100_000 }) / a.nshards.max(1);
     for _ in 0..n_random {
         let len = 7 + rng.usize(194);
         let stream: Vec<&MutableItem> = (0..len).map(|_| *rng.pick(&all)).collect();
@@ -168,7 +168,7 @@ pub fn run(a: &Args) -> Report {
     }
     // replica-shaped streams: many identical copies of one item (what 20 storing nodes answer), with a
     // better item (higher seq, or the same seq with a greater value) before, inside or after the run
-    let n_runs = (if a.quick() { 1_600 } else { 40_000 }) / a.nshards.max(1);
+    let n_runs = (if a.quick() { 12_800 } else { 40_000 }) / a.nshards.max(1);
     for _ in 0..n_runs {
         let base = *rng.pick(&all);
         let copies = *rng.pick(&[18usize, 19, 20, 21, 25, 40, 60]);
